@@ -24,7 +24,9 @@ import (
 	"syscall"
 	"time"
 
+	"github.com/ErdemOzgen/blackdagger/internal/client"
 	"github.com/ErdemOzgen/blackdagger/internal/dag"
+	"github.com/ErdemOzgen/blackdagger/internal/dag/scheduler"
 	"github.com/ErdemOzgen/blackdagger/internal/persistence/jsondb"
 	"github.com/ErdemOzgen/blackdagger/internal/persistence/local"
 	"github.com/ErdemOzgen/blackdagger/internal/sock"
@@ -46,6 +48,10 @@ type lcase struct {
 	ThirdAfterMs int `json:"thirdAfterMs"` // > 0: a third `start` (agent C) is launched that long after the second
 	Retention    int `json:"retention"`    // >= 0: `histRetentionDays: N` in the DAG (0 = the loader's default, 30 days); -1: not written
 	Resave       string `json:"resave"`    // before the second command the DAG file is replaced by a NEW inode: "" | rename | updatespec
+	// what the re-saved definition differs in ("" = only a trailing comment): name-added | other-name | name-removed |
+	// other-description | step-added | other-params | other-logdir. The first run's definition has `name: <NameBefore>` ("" = no name key)
+	ResaveEdit   string `json:"resaveEdit"`
+	NameBefore   string `json:"nameBefore"`
 	FreezeMs     int    `json:"freezeMs"`  // > 0: the first run's process is SIGSTOPped while the second command runs (resumed when it has exited, at the latest after that long)
 	BVia         string `json:"bVia"`      // the second command's path to the SAME file: "" plain | dirlink | filelink | hardlink
 	BackdateH    int `json:"backdateH"`    // > 0: just before the second command every file under the data dir gets an mtime that many hours in the past
@@ -95,6 +101,12 @@ type result struct {
 	StoreByReq  map[string]bool `json:"storeByReq"`  // FindByRequestID of each run present before, asked right after the second command exited
 	AAliveAfter bool           `json:"aAliveAfter"` // A still running when B exited
 	StatusCmd   string         `json:"statusCmd"`   // what `blackdagger status` printed after B exited
+	SockFile    string         `json:"sockFile"`    // address of the status endpoint FOR THE FILE as it is when the second command is issued (definition loaded again by the real loader)
+	AnsFileAfter bool          `json:"ansFileAfter"` // that address answered after B exited (while A alive)
+	AnsFilePid  int            `json:"ansFilePid"`  // pid reported by that answer
+	ApiStatus   string         `json:"apiStatus"`   // client.GetCurrentStatus of the file as it is now, asked after B exited (while A alive): running | other:<n> | error
+	ApiPid      int            `json:"apiPid"`
+	QueriesT    float64        `json:"queriesT"`    // wall-clock time at which the last of the status queries after B (endpoint probes, API, `status` command) had returned
 	Sock        string         `json:"sock"`
 	SockB       string         `json:"sockB"`       // socket address under the second command's spelling of the path
 	BSockSeen   bool           `json:"bSockSeen"`   // a socket file existed at that address right after the second command exited / while it ran
@@ -301,7 +313,7 @@ var closeRe = regexp.MustCompile(`^close\((\d+)`)
 var lineRe = regexp.MustCompile(`^(\d+)\s+(\d+\.\d+)\s+(.*)$`)
 
 // parseTrace extracts the socket-path system calls of one traced agent (all its threads).
-func parseTrace(path, agent, sockPath, dataDir string) (evs []event, pid int) {
+func parseTrace(path, agent string, sockKeys []string, dataDir string) (evs []event, pid int) {
 	b, _ := os.ReadFile(path)
 	pending := map[string]event{} // tid -> unfinished call
 	lockFd := ""                  // descriptor the lock is held on
@@ -359,7 +371,7 @@ func parseTrace(path, agent, sockPath, dataDir string) (evs []event, pid int) {
 			evs = append(evs, event{T: t, Te: t + durOf(rest), Ag: agent, Ev: "histunlink", Res: resultOf(rest)})
 			continue
 		}
-		if !strings.Contains(rest, sockPath) {
+		if !isSock(rest, sockKeys) {
 			continue
 		}
 		name := rest[:strings.Index(rest, "(")]
@@ -376,6 +388,19 @@ func parseTrace(path, agent, sockPath, dataDir string) (evs []event, pid int) {
 		evs = append(evs, e)
 	}
 	return
+}
+
+// isSock: the traced call names a blackdagger socket whose address carries one of the location keys
+func isSock(rest string, keys []string) bool {
+	if !strings.Contains(rest, "/tmp/@blackdagger-") {
+		return false
+	}
+	for _, k := range keys {
+		if strings.Contains(rest, k) {
+			return true
+		}
+	}
+	return false
 }
 
 var durRe = regexp.MustCompile(`<(\d+\.\d+)>\s*$`)
@@ -407,7 +432,7 @@ func resultOf(rest string) string {
 }
 
 // listenOf finds the `listen(fd)` line that follows the bind on the socket path in one agent's trace.
-func listenEvents(path, agent, sockPath string) []event {
+func listenEvents(path, agent string, sockKeys []string) []event {
 	b, _ := os.ReadFile(path)
 	var out []event
 	bound := false
@@ -417,7 +442,7 @@ func listenEvents(path, agent, sockPath string) []event {
 			continue
 		}
 		rest := m[3]
-		if strings.HasPrefix(rest, "bind(") && strings.Contains(rest, sockPath) {
+		if strings.HasPrefix(rest, "bind(") && isSock(rest, sockKeys) {
 			bound = true
 			continue
 		}
@@ -428,6 +453,22 @@ func listenEvents(path, agent, sockPath string) []event {
 		}
 	}
 	return out
+}
+
+// sockOfFile: the status endpoint's address for a DAG file = SockAddr() of the definition loaded by the real loader
+// (what `blackdagger start/status/...` and the API client use); a file the loader rejects: of the bare location
+func sockOfFile(file string) string {
+	if d, err := dag.LoadMetadata(file); err == nil && d != nil {
+		return d.SockAddr()
+	}
+	return (&dag.DAG{Location: file}).SockAddr()
+}
+
+// sockKey: the part of a socket address that depends on the file's location only (md5 of the spelled path)
+func sockKey(file string) string {
+	a := (&dag.DAG{Location: file}).SockAddr()
+	i := strings.LastIndex(a, "-")
+	return a[i:]
 }
 
 func probe(sockPath string) (bool, int) {
@@ -468,27 +509,47 @@ if [ "$2" = "last" ] && [ -f "$VERIF_HOME/fail" ]; then exit 1; fi
 exit 0
 `
 	_ = os.WriteFile(filepath.Join(home, "mark.sh"), []byte(script), 0755)
-	var y strings.Builder
-	if c.Retention >= 0 {
-		fmt.Fprintf(&y, "histRetentionDays: %d\n", c.Retention)
-	}
-	y.WriteString("steps:\n")
-	for i := 1; i <= c.NSteps; i++ {
-		last := ""
-		if i == c.NSteps {
-			last = " last"
+	// the definition; `edit` = what a later save of the file changes in it
+	spec := func(name, edit string) string {
+		var y strings.Builder
+		if name != "" {
+			fmt.Fprintf(&y, "name: %s\n", name)
 		}
-		fmt.Fprintf(&y, "  - name: s%d\n    command: sh %s/mark.sh s%d%s\n", i, home, i, last)
-		if i > 1 {
-			fmt.Fprintf(&y, "    depends:\n      - s%d\n", i-1)
+		switch edit {
+		case "other-description":
+			y.WriteString("description: saved again with another description\n")
+		case "other-params":
+			y.WriteString("params: \"p1 p2\"\n")
+		case "other-logdir":
+			fmt.Fprintf(&y, "logDir: %s\n", filepath.Join(home, "logs2"))
 		}
-	}
-	if c.HandMs >= 0 {
-		fmt.Fprintf(&y, "handlerOn:\n  exit:\n    command: sh %s/mark.sh hx\n", home)
+		if c.Retention >= 0 {
+			fmt.Fprintf(&y, "histRetentionDays: %d\n", c.Retention)
+		}
+		y.WriteString("steps:\n")
+		n := c.NSteps
+		if edit == "step-added" {
+			n++
+		}
+		for i := 1; i <= n; i++ {
+			last := ""
+			if i == c.NSteps {
+				last = " last"
+			}
+			fmt.Fprintf(&y, "  - name: s%d\n    command: sh %s/mark.sh s%d%s\n", i, home, i, last)
+			if i > 1 {
+				fmt.Fprintf(&y, "    depends:\n      - s%d\n", i-1)
+			}
+		}
+		if c.HandMs >= 0 {
+			fmt.Fprintf(&y, "handlerOn:\n  exit:\n    command: sh %s/mark.sh hx\n", home)
+		}
+		return y.String()
 	}
 	dagFile := filepath.Join(home, "dags", "d.yaml")
-	_ = os.WriteFile(dagFile, []byte(y.String()), 0644)
-	sockPath := (&dag.DAG{Location: dagFile}).SockAddr()
+	_ = os.WriteFile(dagFile, []byte(spec(c.NameBefore, "")), 0644)
+	// the address the first run will listen on: SockAddr of the definition as the real loader reads it NOW
+	sockPath := sockOfFile(dagFile)
 	res.Sock = sockPath
 	defer os.Remove(sockPath)
 	// the same file under another spelling of its path
@@ -509,7 +570,7 @@ exit 0
 			return
 		}
 	}
-	bSock := (&dag.DAG{Location: bDagFile}).SockAddr()
+	bSock := sockOfFile(bDagFile)
 	res.SockB = bSock
 	defer os.Remove(bSock)
 	defer os.Remove(strings.TrimSuffix(sockPath, ".sock") + ".lock")
@@ -611,16 +672,28 @@ exit 0
 			return st.Ino
 		}
 		before := ino()
-		spec, _ := os.ReadFile(dagFile)
-		spec = append(spec, []byte("# saved again\n")...)
+		saved, _ := os.ReadFile(dagFile)
+		switch c.ResaveEdit {
+		case "":
+		case "name-added", "other-name":
+			saved = []byte(spec(c.NameBefore+"-batch", ""))
+			if c.NameBefore == "" {
+				saved = []byte(spec("nightly", ""))
+			}
+		case "name-removed":
+			saved = []byte(spec("", ""))
+		default:
+			saved = []byte(spec(c.NameBefore, c.ResaveEdit))
+		}
+		saved = append(saved, []byte("# saved again\n")...)
 		if c.Resave == "updatespec" {
-			if err := local.NewDAGStore(&local.NewDAGStoreArgs{Dir: filepath.Join(home, "dags")}).UpdateSpec("d", spec); err != nil {
+			if err := local.NewDAGStore(&local.NewDAGStoreArgs{Dir: filepath.Join(home, "dags")}).UpdateSpec("d", saved); err != nil {
 				res.Err = "UpdateSpec: " + err.Error()
 				return
 			}
 		} else {
 			tmp := dagFile + ".tmp"
-			_ = os.WriteFile(tmp, spec, 0644)
+			_ = os.WriteFile(tmp, saved, 0644)
 			if err := os.Rename(tmp, dagFile); err != nil {
 				res.Err = "rename: " + err.Error()
 				return
@@ -628,6 +701,10 @@ exit 0
 		}
 		res.InodeChanged = ino() != before
 	}
+	// the status endpoint's address FOR THE FILE as it is from now on (what `status`, the API client and the second
+	// command's own probe derive from the definition they load)
+	res.SockFile = sockOfFile(dagFile)
+	defer os.Remove(res.SockFile)
 	thaw := func() {}
 	if c.FreezeMs > 0 && res.APid > 0 {
 		pid := res.APid
@@ -721,6 +798,22 @@ exit 0
 		res.AAliveAfter = true
 		res.AnsT = float64(time.Now().UnixNano()) / 1e9
 		res.AnsAfterB, res.AnsPidAfter = probe(sockPath)
+		if c.Resave != "" {
+			// is the active run still reached THROUGH THE FILE: the raw endpoint at the address of the definition as saved
+			// now, and the API's status query (client.GetCurrentStatus of the freshly loaded definition)
+			res.AnsFileAfter, res.AnsFilePid = probe(res.SockFile)
+			res.ApiStatus = "error"
+			if d, err := dag.LoadMetadata(dagFile); err == nil {
+				if st, err := client.New(nil, "", "", nil).GetCurrentStatus(d); err == nil && st != nil {
+					res.ApiPid = int(st.PID)
+					if st.Status == scheduler.StatusRunning {
+						res.ApiStatus = "running"
+					} else {
+						res.ApiStatus = fmt.Sprintf("other:%d", int(st.Status))
+					}
+				}
+			}
+		}
 		if c.Phase == "steps" {
 			cmd := exec.Command(c.Bin, "status", dagFile)
 			cmd.Env = envFor(home, "S")
@@ -734,6 +827,7 @@ exit 0
 				res.StatusCmd = "error"
 			}
 		}
+		res.QueriesT = float64(time.Now().UnixNano()) / 1e9
 	}
 	if !pa.wait(40 * time.Second) {
 		res.Err = "A did not finish"
@@ -751,8 +845,10 @@ exit 0
 	}
 	for _, x := range all {
 		// (each traced process touches only the socket of its own spelling of the path)
-		evs, _ := parseTrace(x.p.trace, x.n, "/tmp/@blackdagger-d-", filepath.Join(home, "data")+"/")
-		evs = append(evs, listenEvents(x.p.trace, x.n, "/tmp/@blackdagger-d-")...)
+		// (the socket paths of this case's file under either spelling, whatever the readable part of the name is)
+		keys := []string{sockKey(dagFile), sockKey(bDagFile)}
+		evs, _ := parseTrace(x.p.trace, x.n, keys, filepath.Join(home, "data")+"/")
+		evs = append(evs, listenEvents(x.p.trace, x.n, keys)...)
 		res.Events = append(res.Events, evs...)
 		res.Pid[x.n] = x.p.pid
 	}
